@@ -60,6 +60,19 @@ Theorem C06_legacy_sound : forall R P cx, creddefs_distinct cx = true ->
   verify_legacy cfg_fixed R P cx = Accept -> restr_true_legacy R P cx = true.
 Proof. exact c06_legacy_sound. Qed.
 
+(* the behaviour before fix commit c1676db fails the soundness statement: a referent listed as revealed
+   under one credential AND as unrevealed under another was restricted through the unrevealed entry, so a
+   value revealed from credential one was accepted under a restriction true of credential two only *)
+Theorem C06_unfixed_refuted :
+  match create_legacy pcfg_fixed k_req k_cx 7 k_sel [] with
+  | ROk P =>
+      let P' := add_unrev P "a1" 1 in
+      verify_legacy cfg_unrev_first k_req P' k_cx = Accept /\ creddefs_distinct k_cx = true /\ restr_true_legacy k_req P' k_cx = false /\
+      verify_legacy cfg_fixed k_req P' k_cx = Err /\
+      verify_legacy cfg_unrev_first k_req P k_cx = Err
+  | _ => False end.
+Proof. exact c06_unfixed_refuted. Qed.
+
 (* SOUNDNESS, W3C format: if the verifier model accepts then, for every name of every restricted attribute
    and for every restricted predicate, some presented credential reveals or holds the attribute / proves the
    predicate AND the restriction is true of the credential that signed its proof, over the credential's subject *)
@@ -98,6 +111,7 @@ Print Assumptions C06_value_tag.
 Print Assumptions C06_marker_tag.
 Print Assumptions C06_self_attested_needs_unrestricted.
 Print Assumptions C06_filter_bound.
+Print Assumptions C06_unfixed_refuted.
 Print Assumptions C06_legacy_sound.
 Print Assumptions C06_w3c_sound.
 Print Assumptions C06_legacy_complete.
